@@ -20,7 +20,7 @@ COQ_IMPORTS = ('From Bac Require Import Base.\nFrom Bac Require Import Tag.\nFro
                'From Bac Require Import Codec.\nFrom BacGen Require Import Schemas.')   # one library per line: much faster to load
 TABLE_OBLIGATIONS = ['C03_all_wf', 'C03_supported_or_listed', 'C03_registries_shape']
 RULE = ('cases: for each of the 58 registered PDUs and every Sequence/Choice class of apdu.py/basetypes.py (all, every run): presence '
-        'patterns of its optional elements (all if <= 16 (quick) / 256 (thorough), else all-absent, all-present, each single one, '
+        'patterns of its optional elements (all if <= 8 (quick) / 256 (thorough), else all-absent, all-present, each single one, '
         'random), every choice alternative, list lengths 0..3, nested values random to the depth of the type, leaves from boundary pools; '
         'each value is encoded (tag list / PDU octets compared) and its encoding decoded (shape + remaining tags compared); malformed '
         'stream = one structural mutation (delete, duplicate, renumber, reclass, swap, truncate, append) of a valid encoding, compared '
@@ -585,7 +585,7 @@ def values_for(name, rng, tier):
     """the systematic family of values of one class"""
     d = cdesc(name)
     out = []
-    cap = 16 if tier == 'quick' else 256
+    cap = 8 if tier == 'quick' else 256
     if d['kind'] == 'seq':
         for p in presence_patterns(name, rng, cap):
             out.append(gen_bounded(name, rng, {'presence': p} if p else None))
@@ -601,7 +601,7 @@ def values_for(name, rng, tier):
     else:
         for r in (0.1, 0.5, 0.9):
             out.append(gen_bounded(name, rng, {'nv': r}))
-    extra = 2 if tier == 'quick' else 12
+    extra = 1 if tier == 'quick' else 12
     for _ in range(extra):
         out.append(gen_bounded(name, rng))
     return out
@@ -817,17 +817,92 @@ def direct(rng, tier, focus=()):
         if len(samples) < 4 and name in ('ReadPropertyACK', 'WritePropertyRequest', 'IAmRequest', 'EventParameter'):
             tr = gen_bounded(name, rng)
             samples.append({'direct': 'roundtrip', 'type': name, 'value': repr(strip(tr))[:300]})
-    for f in annexf_failures():
-        n += 1
-        failures.append(f)
+    n += len(_vectors())
+    failures.extend(annexf_failures())
     # smallest first so that the replay written is the most readable one
     failures.sort(key=lambda f: len(f.get('octets', '')) + len(f.get('value', '')))
     return failures, {'evaluations': n, 'distinct_nontrivial': len(nontriv), 'types_exercised': len(per_type),
                       'min_values_per_type': min(per_type.values()) if per_type else 0, 'samples': samples}
 
 
+# worked examples in the style of Annex F.  Each: class, constructor arguments, the octets of the service
+# parameters (after the APCI header), and an independent description for the hand encoder below:
+# ('c', ctx, data) primitive context tag, ('a', app, data) application tag, ('o', ctx) / ('x', ctx) opening / closing.
+def _vectors():
+    from bacpypes.constructeddata import Any
+    from bacpypes.primitivedata import Real
+    from bacpypes import apdu as A
+    return [
+        ('ReadPropertyRequest', dict(objectIdentifier=('analogInput', 5), propertyIdentifier='presentValue'),
+         '0C00000005 1955', [('c', 0, '00000005'), ('c', 1, '55')]),
+        ('ReadPropertyACK', dict(objectIdentifier=('analogInput', 5), propertyIdentifier='presentValue', propertyValue=Any(Real(72.30000305175781))),
+         '0C00000005 1955 3E 4442909 99A 3F'.replace('4442909 99A', '444290999A'),
+         [('c', 0, '00000005'), ('c', 1, '55'), ('o', 3), ('a', 4, '4290999A'), ('x', 3)]),
+        ('WritePropertyRequest', dict(objectIdentifier=('analogValue', 1), propertyIdentifier='presentValue', propertyValue=Any(Real(180.0))),
+         '0C00800001 1955 3E 4443340000 3F', [('c', 0, '00800001'), ('c', 1, '55'), ('o', 3), ('a', 4, '43340000'), ('x', 3)]),
+        ('WhoIsRequest', dict(deviceInstanceRangeLowLimit=3, deviceInstanceRangeHighLimit=3), '0903 1903', [('c', 0, '03'), ('c', 1, '03')]),
+        ('IAmRequest', dict(iAmDeviceIdentifier=('device', 3), maxAPDULengthAccepted=1024, segmentationSupported='noSegmentation', vendorID=99),
+         'C402000003 220400 9103 2163', [('a', 12, '02000003'), ('a', 2, '0400'), ('a', 9, '03'), ('a', 2, '63')]),
+        ('SubscribeCOVRequest', dict(subscriberProcessIdentifier=18, monitoredObjectIdentifier=('analogInput', 10), issueConfirmedNotifications=True, lifetime=0),
+         '0912 1C0000000A 2901 3900', [('c', 0, '12'), ('c', 1, '0000000A'), ('c', 2, '01'), ('c', 3, '00')]),
+        ('AtomicReadFileACK', dict(endOfFile=True, accessMethod=A.AtomicReadFileACKAccessMethodChoice(
+            recordAccess=A.AtomicReadFileACKAccessMethodRecordAccess(fileStartRecord=0, returnedRecordCount=0, fileRecordData=[]))),
+         '11 1E 3100 2100 1F', [('b', 1), ('o', 1), ('a', 3, '00'), ('a', 2, '00'), ('x', 1)]),
+        ('TimeSynchronizationRequest', dict(time=__import__('bacpypes.basetypes', fromlist=['DateTime']).DateTime(date=(92, 11, 17, 2), time=(22, 45, 30, 70))),
+         'A45C0B1102 B4162D1E46', [('a', 10, '5C0B1102'), ('a', 11, '162D1E46')]),
+    ]
+
+
+def hand_encode(items):
+    """clause 20.2.1 by hand, independent of bacpypes: tag number < 15 and lengths < 5 or one extended length octet"""
+    out = bytearray()
+    for it in items:
+        if it[0] == 'b':        # application boolean: value in the L/V/T field
+            out.append((1 << 4) | it[1])
+            continue
+        if it[0] in ('o', 'x'):
+            out.append((it[1] << 4) | 0x08 | (6 if it[0] == 'o' else 7))
+            continue
+        data = bytes.fromhex(it[2])
+        first = (it[1] << 4) | (0x08 if it[0] == 'c' else 0)
+        if len(data) < 5:
+            out.append(first | len(data))
+        else:
+            out.append(first | 5)
+            out.append(len(data))
+        out += data
+    return bytes(out)
+
+
 def annexf_failures():
-    return []
+    from bacpypes.apdu import APDU
+    from bacpypes.constructeddata import Sequence
+    fails = []
+    for name, kw, hexs, items in _vectors():
+        want = bytes.fromhex(hexs.replace(' ', ''))
+        base = {'type': name, 'octets': want.hex(), 'value': repr(sorted(kw))[:300], 'features': ['annexF']}
+        if hand_encode(items) != want:
+            fails.append(dict(base, kind='annexF-vector-inconsistent', hand=hand_encode(items).hex()))
+            continue
+        cls = S()['classes'][name]
+        try:
+            a = APDU(); cls(**kw).encode(a)
+            got = bytes(a.pduData)
+        except Exception as e:
+            fails.append(dict(base, kind='annexF-encode-refused', exc=type(e).__name__))
+            continue
+        if got != want:
+            fails.append(dict(base, kind='annexF-octets-differ', got=got.hex()))
+            continue
+        try:
+            obj = impl_decode_pdu(name, want)
+            same = repr(normalise_dict(Sequence.dict_contents(obj))) == repr(normalise_dict(Sequence.dict_contents(cls(**kw))))
+        except Exception as e:
+            fails.append(dict(base, kind='annexF-decode-refused', exc=type(e).__name__))
+            continue
+        if not same:
+            fails.append(dict(base, kind='annexF-values-differ', got=repr(Sequence.dict_contents(obj))[:500]))
+    return fails
 
 
 # ------------------------------------------------------------------------------------------------
